@@ -446,6 +446,37 @@ def run(rep, tier="quick", replay=None, evidence_dir=None):
         agg = [st for _, _, st in cv.stmts() if st["s"] == "assign" and st["rv"]["r"] == "agg" and st["rv"].get("variant") == "Bytes"]
         rep.ob("C04.R4", "the header's codec value is Value::Bytes of the codec's name", len(c) == 1 and len(agg) == 1, "", cv.loc())
 
+    # ------------------------------------------------------------------ R5 rejection inventory
+    rep.rule("C04.R5", "closed inventory of the reasons for which the container reader itself rejects a file")
+    with open(os.path.join(common.VERIF, "rules", "tables", "c04_rejections.toml"), "rb") as fh:
+        rej = tomllib.load(fh)["fn"]
+    from mir import rv_operands
+    n_rej = 0
+    for fn in sorted(rej):
+        b = get(prog, rep, "C04.R5", fn)
+        if b is None:
+            continue
+        found = {}
+        for body in prog.with_closures(b):
+            for bi, si, st in body.stmts():
+                if st["s"] != "assign":
+                    continue
+                rv = st["rv"]
+                if rv["r"] == "agg" and rv.get("adt") == "error::Details":
+                    found.setdefault(rv["variant"], body.loc(bi, st.get("ln")))
+                for o in rv_operands(rv):
+                    if o.get("k") == "const" and o.get("ctor", "").startswith("error::Details::"):
+                        found.setdefault(o["ctor"].split("::")[-1], body.loc(bi, st.get("ln")))
+            for bi, t in body.calls():
+                for a in t["args"]:
+                    if a.get("k") == "const" and a.get("ctor", "").startswith("error::Details::"):
+                        found.setdefault(a["ctor"].split("::")[-1], body.loc(bi))
+        for v, loc in sorted(found.items()):
+            n_rej += 1
+            rep.ob("C04.R5", "%s rejects with %s: listed" % (fn.split("::")[-1], v), v in rej[fn],
+                   "a new reason to reject a file (Details::%s): a spec-conforming file written by another implementation must never take it; justify it in rules/tables/c04_rejections.toml" % v, loc)
+    rep.floor("C04.R5", "rejection sites in the container reader", n_rej, 20)
+
     rep.floor("C04", "obligations", len(rep.obligations), 40)
     rep.not_decided = ["that an independent implementation reads the bytes (payload formats are the codec crates': C15 decides only the pairing)",
                        "values, schema text and metadata of concrete files (needs execution; C01/C02/C10 decide their structural parts)",
